@@ -262,34 +262,7 @@ theorem doStep_live {σ} (W : World σ) (is : Block) (s : St) (w : σ) (h : live
             simp [liveTop, hget2, shapeI_create]
           · cases hd
 
-/-! ### chains -/
-inductive Seg (σ : Type) where
-  | running (s : St) (w : σ)
-  | finished (r : Ret) (w : σ)
-  | failed
-
-/-- `n` consecutive `_do_step` calls (fewer if the chain finishes) -/
-def runSteps {σ} (W : World σ) (is : Block) : Nat → St → σ → Seg σ
-  | 0, s, w => .running s w
-  | n+1, s, w =>
-    match doStep W is s w with
-    | .cont s' w' _ => runSteps W is n s' w'
-    | .done r w' => .finished r w'
-    | .error _ => .failed
-
-/-- the chain with crash points: after `n` further `_do_step` calls the stepper is saved, the instance abandoned, the
-stepper recreated from the saved state (a failing restore ends the run) and the chain continued -/
-def runCrash {σ} (E : Env) (W : World σ) (is : Block) (fuel : Nat) : List Nat → St → σ → Option (Ret × σ)
-  | [], s, w => runChain W is fuel s w
-  | n :: cs, s, w =>
-    match runSteps W is n s w with
-    | .running s' w' =>
-      (match restoreTop E is (saveTop E is s') with
-       | .ok s'' => runCrash E W is fuel cs s'' w'
-       | .error _ => none)
-    | .finished r w' => some (r, w')
-    | .failed => none
-
+/-! ### chains (`runSteps`, `runCrash` are defined in Persist/Model.lean) -/
 theorem runChain_add {σ} (W : World σ) (is : Block) (n m : Nat) (s : St) (w : σ) :
     runChain W is (n + m) s w =
       match runSteps W is n s w with
